@@ -211,12 +211,15 @@ def tok_num(x):
 
 
 class OneDraw:
-    def __init__(self, xi):
+    def __init__(self, xi, log=None):
         self.xi = xi
         self.calls = 0
+        self.log = log
+        self.at = []          # number of engine requests made before each draw
 
     def random(self):
         self.calls += 1
+        self.at.append(len(self.log) if self.log is not None else -1)
         return self.xi
 
     def __getattr__(self, name):
@@ -508,7 +511,7 @@ class World:
             old1 = self.mk_path(fs, "old1", c["old1"], int_orders=bool(c.get("int_orders")))
         else:
             old0, old1 = old_paths
-        rgen = OneDraw(float(c["xi"]))
+        rgen = OneDraw(float(c["xi"]), log)
         picked = self.picked(c, old0, old1, rgen)
         if live is not None:
             if "ens" in live:      # the very same ens_set dicts as in the previous calls of the sequence
@@ -519,6 +522,16 @@ class World:
             elif live.get("keep_ens"):
                 live["ens"] = (picked[-1]["ens"], picked[0]["ens"])
         engines = {-1: [eng0], 0: [eng1]}
+        via_select = bool(c.get("via_select"))
+        if via_select:
+            # the move reached through the REAL select_shoot: engines looked up in tis.ENGINES by picked[..]["eng_idx"],
+            # set_mdrun / rgen-eng / clean_up on each, routing on len(picked) == 2 and tis_set["quantis"]
+            for key, name in ((-1, "engA"), (0, "engB")):
+                picked[key]["eng_idx"] = {name: 0}
+                picked[key]["exe_dir"] = d
+                picked[key]["ens"]["tis_set"]["quantis"] = (c["kind"] == "quantis")
+            if c.get("picked_order"):
+                picked = {0: picked[0], -1: picked[-1]}
         ens_before = ens_state(picked)
         eng0.old_ids = eng1.old_ids = {id(fr) for fr in old0.phasepoints} | {id(fr) for fr in old1.phasepoints}
         snap = (snapshot(old0), snapshot(old1))
@@ -536,13 +549,54 @@ class World:
         fn = self.tis.quantis_swap_zero if c["kind"] == "quantis" else self.tis.retis_swap_zero
         saved = self.tis.np
         self.tis.np = self.proxy
+        pastes, revs = [], []
+        real_paste, real_reverse = self.tis.paste_paths, self.Path.reverse
+
+        def spy_paste(path_back, path_forw, overlap=True, maxlen=None):
+            rec = [list(path_back.phasepoints), list(path_forw.phasepoints), overlap, maxlen, None]
+            pastes.append(rec)
+            rec[4] = real_paste(path_back, path_forw, overlap=overlap, maxlen=maxlen)
+            return rec[4]
+
+        def spy_reverse(self_, order_function, rev_v=True):
+            revs.append((list(self_.phasepoints), order_function, rev_v))
+            return real_reverse(self_, order_function, rev_v=rev_v)
+        if c["kind"] == "quantis":
+            self.tis.paste_paths = spy_paste
+            self.Path.reverse = spy_reverse
+        saved_engines = getattr(self.tis, "ENGINES", None)
+        had_engines = hasattr(self.tis, "ENGINES")
+        if via_select:
+            self.tis.ENGINES = {"engA": [eng0], "engB": [eng1]}
         try:
-            accept, paths, status = fn(picked, engines)
+            if via_select:
+                accept, paths, status = self.tis.select_shoot(picked)
+            else:
+                accept, paths, status = fn(picked, engines)
         except Exception as e:  # noqa: BLE001
             return {"err": err_kind(e), "reqs": list(log), "mutated": mutated(), "olds": (old0, old1),
                     "played": played_scripts(c, eng0, eng1)}
         finally:
             self.tis.np = saved
+            self.tis.paste_paths = real_paste
+            self.Path.reverse = real_reverse
+            if via_select:
+                if had_engines:
+                    self.tis.ENGINES = saved_engines
+                else:
+                    try:
+                        del self.tis.ENGINES
+                    except AttributeError:
+                        pass
+        paste_rec = None
+        if pastes:
+            rd = lambda frs: self.read_path(fs, type("P", (), {"phasepoints": frs}))  # noqa: E731
+            try:
+                paste_rec = {"calls": [(rd(b), rd(f), ov, ml, rd(res.phasepoints), res.time_origin, res.maxlen)
+                                       for (b, f, ov, ml, res) in pastes],
+                             "revs": [(rd(frs), of is None, rv) for (frs, of, rv) in revs]}
+            except Exception as e:  # noqa: BLE001
+                paste_rec = {"unreadable": repr(e)}
         ea = p = None
         if self.proxy.exp_log:
             ea, p = self.proxy.exp_log[-1]
@@ -553,6 +607,7 @@ class World:
             "ea": None if ea is None else float(ea), "p": None if p is None else float(p),
             "path0": self.read_path(fs, paths[0]), "path1": self.read_path(fs, paths[1]),
             "reqs": list(log), "same": paths[0] is old0 and paths[1] is old1, "objs": paths,
+            "at": (rgen.at[0] if rgen.at else None), "ats": list(rgen.at), "pastes": paste_rec,
             "nexp": len(self.proxy.exp_log), "mutated": mutated(), "olds": (old0, old1),
             "played": played_scripts(c, eng0, eng1),
             "aliased": None if (paths[0] is old0 and paths[1] is old1) else aliasing(paths, (old0, old1)),
@@ -566,7 +621,8 @@ def code_line(r):
         return str(int(x)) if float(x) == int(x) else repr(x)
     ea = "-" if r["ea"] is None else frac_token(r["ea"])
     return (f"{int(r['accept'])} {r['status']} {r['st0']} {r['st1']} {w(r['w0'])} {w(r['w1'])} {r['draws']} {ea} | "
-            f"{lst(r['path0'], frame_tok)} | {lst(r['path1'], frame_tok)} | {lst(r['reqs'])}")
+            f"{lst(r['path0'], frame_tok)} | {lst(r['path1'], frame_tok)} | {lst(r['reqs'])} | "
+            f"at={'-' if r.get('at') is None else r['at']}")
 
 
 # --------------------------------------------------------------------------- property predicates
@@ -831,24 +887,29 @@ def traj_from(step, c0, n):
     out = [c0]
     for _ in range(n):
         c = step(out[-1])
-        if abs(c[0]) > 45 or abs(c[1]) > 45:
+        if abs(c[0]) > (45 if n <= 14 else 200) or abs(c[1]) > 45:
             break
         out.append(c)
     return out
 
 
-def det_cases(ctx):
-    """old path pairs that are trajectories of the integer leap-frog engine, found by seeded search"""
+def det_cases(ctx, mode="std"):
+    """old path pairs that are trajectories of the integer leap-frog engine, found by seeded search.
+    Extension pass, boundary classes: mode "min3" = both old paths of the minimal length 3; "tight" = the length limit
+    is max(len)+1 or max(len)+2 (swaps decided AT maxlen: BTX/FTX next to ACC); "long" = wide soft well (a = 400/900,
+    k ≥ 512, λ0 far from the minimum): old paths of 15 to 60 frames"""
     rng = ctx.rng
     cases = []
-    want = 800 if ctx.quick else 8000
+    want = {"std": 800 if ctx.quick else 8000, "min3": 60 if ctx.quick else 1500, "tight": 150 if ctx.quick else 3000,
+            "long": 40 if ctx.quick else 800}[mode]
+    nmax = 60 if mode == "long" else 14
     tries = 0
     while len(cases) < want and tries < 200 * want:
         tries += 1
-        a = rng.choice((36, 64, 100))
-        k = rng.choice((16, 32, 64, 128))
+        a = rng.choice((36, 64, 100)) if mode != "long" else rng.choice((400, 900))
+        k = rng.choice((16, 32, 64, 128)) if mode != "long" else rng.choice((512, 2048, 4096))
         step = lambda c: dw_step(a, k, c)  # noqa: E731
-        lam0 = -int(a ** 0.5) + rng.randint(0, 4)
+        lam0 = -int(a ** 0.5) + (rng.randint(0, 4) if mode != "long" else rng.randint(8, 16))
         lamN = lam0 + rng.randint(1, 8)
         lm1 = rng.random() < 0.4
         lamm = lam0 - rng.randint(2, 6)
@@ -858,18 +919,27 @@ def det_cases(ctx):
             c = (lamm - rng.randint(1, 2), rng.randint(0, 4))
         else:
             c = (lam0 + rng.randint(1, 3), -rng.randint(0, 4))
-        tr0 = traj_from(step, c, 14)
+        tr0 = traj_from(step, c, nmax)
         k0 = next((j for j in range(1, len(tr0)) if tr0[j][0] > lam0 or tr0[j][0] < lo), None)
         if k0 is None or k0 < 2 or tr0[k0][0] <= lam0:
             continue
         tr0 = tr0[: k0 + 1]
         c = (lam0 - rng.randint(0, 3), rng.randint(0, 4))
-        tr1 = traj_from(step, c, 14)
+        tr1 = traj_from(step, c, nmax)
         k1 = next((j for j in range(1, len(tr1)) if tr1[j][0] < lam0 or tr1[j][0] > lamN), None)
         if k1 is None or k1 < 2:
             continue
         tr1 = tr1[: k1 + 1]
-        m = max(len(tr0), len(tr1)) + rng.choice((1, 1, 2, 5, 12))
+        if mode == "min3" and (len(tr0) != 3 or len(tr1) != 3):
+            continue
+        if mode == "long" and max(len(tr0), len(tr1)) < 15:
+            continue
+        if mode == "tight":
+            m = max(len(tr0), len(tr1)) + rng.choice((1, 2))
+        elif mode == "long":
+            m = max(len(tr0), len(tr1)) + rng.choice((2, 30))
+        else:
+            m = max(len(tr0), len(tr1)) + rng.choice((1, 1, 2, 5, 12))
 
         def store(tr):
             out = []
@@ -878,7 +948,8 @@ def det_cases(ctx):
                 out.append((x, (x, -v if vr else v), vr, 0))
             return out
         i0 = (lamm, lamm + 1, lam0) if lm1 else (NEG, lam0, lam0)
-        cases.append({"kind": "retisdet", "tag": "reversible-" + ("lm1" if lm1 else "plain"), "a": a, "k": k, "n": m + 2,
+        cases.append({"kind": "retisdet", "tag": "reversible-" + ("lm1" if lm1 else "plain") + ("" if mode == "std" else "-" + mode),
+                      "a": a, "k": k, "n": m + 2,
                       "e0": ens(i0, m, (True, True) if lm1 else (False, True)),
                       "e1": ens((lam0, lam0, lamN), m, (True, False)),
                       "old0": store(tr0), "old1": store(tr1), "xi": Fraction(1, 2)})
@@ -947,6 +1018,12 @@ def vel_block(ctx, W, have_model):
         p = Fraction(r["p"]) if ("err" not in r and r.get("p") is not None) else Fraction(1)
         lines.append(case_line(cm, p))
         codes.append(code_line(r))
+        if c["kind"] == "retis":
+            # the same move through the model's OWN deterministic engine with the velocity-dependent order parameter
+            # 2x+v of the physical phase point (Infretis.ZeroSwap.retisSwapZeroDetV), not through the played streams
+            lines.append(f"retisdetv {c['a']} {c['k']} {c['n']} {ens_tok(c['e0'])} {ens_tok(c['e1'])} {lst(c['old0'], frame_tok)} "
+                         f"{lst(c['old1'], frame_tok)} {frac_token(c['xi'])}")
+            codes.append(code_line(r))
         return r, cm
 
     for c in vel_cases(ctx):
@@ -998,8 +1075,217 @@ def vel_block(ctx, W, have_model):
         ctx.sample({"case": lines[0], "code": codes[0]})
 
 
+# --------------------------------------------------------------------------- extension pass: tables, pastes, balance
+Q_STATUSES = ["-", "ACC", "BTX", "BTS", "0-L", "FTX", "FTS", "HAS", "QNE", "QLL", "QS0", "QS1", "QEA", "QR*", "QLR", "0+R"]
+R_COMBOS = [(a, b, w, h) for a in ("BTX", "BTS", "0-L", "ACC") for b in ("FTX", "FTS", "ACC") for w in (0, 1) for h in (0, 1)]
+
+
+def spec_tables(ctx):
+    """the Lean SPEC functions `quantisFields`, `retisTable`, `retisField1` (right-hand sides of
+    quantis_status_table / retis_status_table) evaluated once through the driver"""
+    lines = [f"qfields {s_}" for s_ in Q_STATUSES] + [f"rtable {a} {b} {w} {h}" for (a, b, w, h) in R_COMBOS]
+    out = ctx.driver(lines)
+    qf = {s_: tuple(o.split()) for s_, o in zip(Q_STATUSES, out[:len(Q_STATUSES)])}
+    rt = {k: tuple(o.split()) for k, o in zip(R_COMBOS, out[len(Q_STATUSES):])}
+    return qf, rt
+
+
+def py_status0(e0, p):
+    """tis.py:915-925 stated directly on the returned [0-] path"""
+    lo = min(e0["i"])
+    if len(p) == e0["maxlen"]:
+        return "BTX"
+    if len(p) < 3:
+        return "BTS"
+    if not e0["sc"][0] and (p[0][0] <= lo or p[-1][0] <= lo):
+        return "0-L"
+    return "ACC"
+
+
+def py_status1(e1, p):
+    if len(p) >= e1["maxlen"]:
+        return "FTX"
+    if len(p) < 3:
+        return "FTS"
+    return "ACC"
+
+
+def check_tables(ctx, T, c, r):
+    """status tables and draw position, judged on the real outputs with the Lean spec tables"""
+    if "err" in r:
+        return
+    rep = strip(c)
+    pre4 = ("QNE", "QLL", "QS0", "QS1")
+    if c["kind"] == "quantis":
+        if T is not None:
+            want = T[0].get(r["status"])
+            if want is None or r["status"] in ("-", "HAS"):
+                ctx.fail("C11:quantis-status-not-in-table", f"quantis_swap_zero returned status {r['status']!r}", rep)
+            elif (r["st0"], r["st1"]) != want:
+                ctx.fail("C11:quantis-status-fields", f"status {r['status']}: the returned paths carry status ({r['st0']}, {r['st1']}), "
+                         f"table (Infretis.ZeroSwap.quantisFields) says {want}", rep)
+        exp_draws = 0 if r["status"] in pre4 else 1
+        if r["draws"] != exp_draws or (exp_draws == 1 and r.get("at") != 2):
+            ctx.fail("C11:quantis-draw-position", f"status {r['status']}: {r['draws']} draws, the first after {r.get('at')} engine requests "
+                     f"(ξ belongs after exactly the two one-step propagations, and only when the pre-checks passed)", rep)
+        return
+    if r.get("same"):
+        return          # λ₋₁ early return: judged by C11:lm1-left-not-rejected-early
+    try:
+        s0, s1 = py_status0(c["e0"], r["path0"]), py_status1(c["e1"], r["path1"])
+    except Exception:  # noqa: BLE001
+        return
+    wf = int(bool(c["e0"]["wf"] or c["e1"]["wf"]))
+    if T is not None:
+        want = T[1].get((s0, s1, wf, int(r["accept"])))
+        if want is not None and ((r["status"], r["st1"]) != want or r["st0"] != r["status"]):
+            ctx.fail("C11:retis-status-table", f"new paths have statuses ({s0}, {s1}), wf={wf}, accept={r['accept']}: returned {r['status']} with "
+                     f"path fields ({r['st0']}, {r['st1']}); table (Infretis.ZeroSwap.retisTable/retisField1) says {want}", rep)
+    exp_draws = 1 if (s0 == "ACC" and s1 == "ACC" and wf) else 0
+    if r["draws"] != exp_draws or (exp_draws == 1 and r.get("at") != len(r["reqs"])):
+        ctx.fail("C11:retis-draw-position", f"{r['draws']} draws (expected {exp_draws}), the first after {r.get('at')} of {len(r['reqs'])} requests", rep)
+
+
+def paste_lines(ctx, c, r):
+    """the paste_paths / reverse calls the real quantis_swap_zero made → (driver line, what the real calls returned, ncalls)"""
+    pr = r.get("pastes") if "err" not in r else None
+    if not pr:
+        return None
+    rep = strip(c)
+    if "unreadable" in pr:
+        ctx.fail("C11:output-not-interpretable", "paste_paths arguments not readable: " + pr["unreadable"], rep)
+        return None
+    calls, revs = pr["calls"], pr["revs"]
+    if len(calls) > 2 or len(revs) > 1 or (len(calls) == 2) != (len(revs) == 1):
+        ctx.fail("C11:quantis-paste-calls", f"{len(calls)} paste_paths calls and {len(revs)} reverse calls", rep)
+        return None
+    back, tmp0, ov0, m0, res0, t0, _ = calls[0]
+    if r["path0"] != res0 and r["status"] != "QR*":
+        ctx.fail("C11:quantis-path0-not-the-pasted-path", f"returned [0-] path {[f[0] for f in r['path0']]} is not what paste_paths returned "
+                 f"{[f[0] for f in res0]}", rep)
+    tmp1, forw, m1, res1, t1 = [], [], 0, [], None
+    if len(calls) == 2:
+        revd, forw, ov1, m1, res1, t1, _ = calls[1]
+        tmp1, of_none, rv = revs[0]
+        if not ov0 or not ov1 or not of_none or rv:
+            ctx.fail("C11:quantis-paste-calls", f"overlap={ov0},{ov1} order_function None={of_none} rev_v={rv}", rep)
+        if revd != list(reversed(tmp1)):
+            ctx.fail("C11:quantis-paste-calls", "tmp_path1.reverse(None, rev_v=False) did not hand the reversed frames (values unchanged) to paste_paths", rep)
+        if r["path1"] != res1:
+            ctx.fail("C11:quantis-path1-not-the-pasted-path", "returned [0+] path is not what paste_paths returned", rep)
+    try:
+        line = (f"qpaste {lst(back, frame_tok)} {lst(tmp0, frame_tok)} {lst(tmp1, frame_tok)} {lst(forw, frame_tok)} "
+                f"{int(m0)} {int(m1)}")
+        real = f"{lst(res0, frame_tok)} {t0}" + (f" | {lst(res1, frame_tok)} {t1}" if len(calls) == 2 else "")
+    except Exception:  # noqa: BLE001
+        return None
+    return line, real, len(calls)
+
+
+def bal_v0(x):
+    return (x % 7) - 3
+
+
+def bal_v1(x):
+    return 2 * (x % 5) - 4
+
+
+def bal_script(eng_v, start_x, ops, base):
+    """what an engine with energy function eng_v answers: energy of the start configuration, then frames with their energies"""
+    xs = [base + k for k in range(len(ops) + PAD)]
+    full = list(ops) + [ops[-1]] * PAD
+    return (eng_v(start_x), [(o, (x, 3), eng_v(x)) for o, x in zip(full, xs)])
+
+
+def balance_second(c, r1, pick):
+    """the swap back of the accepted pair `r1`: engines answer with the same energy functions"""
+    n0, n1 = r1["path0"], r1["path1"]
+    A2 = bal_script(bal_v0, n1[0][1][0], [pick((1, 2))], 700)
+    B2 = bal_script(bal_v1, n0[-2][1][0], [pick((1, 2))], 800)
+    C2 = bal_script(bal_v0, n1[0][1][0], [-1, 1], 900)
+    D2 = bal_script(bal_v1, 800, [1, 4], 1000)
+    return dict(c, old0=n0, old1=n1, scripts=[A2, B2, C2, D2], aa=True, tag="quantis-balance-back")
+
+
+def balance_cases(ctx):
+    """QuanTIS with engines whose energies are FUNCTIONS of the configuration (V0, V1 of the position), old paths carrying
+    those energies: accepted swap, then the swap back — hypotheses of Infretis.C11.quantis_detailed_balance"""
+    rng = ctx.rng
+    out = []
+    for _ in range(150 if ctx.quick else 3000):
+        vn, i0, sc = rng.choice([("plain", (NEG, 0, 0), (False, True)), ("lm1", (-3, -2, 0), (True, True))])
+        m = rng.choice((7, 8, 9, 12))
+        o0 = [1] + [rng.choice((-1, -2)) for _ in range(rng.randint(0, 2))] + [rng.choice((-1, -2)), 1]
+        o1 = [rng.choice((-1, -2))] + [rng.choice((1, 2)) for _ in range(rng.randint(1, 2))] + [rng.choice((-1, 4))]
+        x0 = [rng.randint(100, 199) for _ in o0]
+        x1 = [rng.randint(200, 299) for _ in o1]
+        old0 = [(o, (x, rng.choice((-2, 1))), rng.random() < 0.3, bal_v0(x)) for o, x in zip(o0, x0)]
+        old1 = [(o, (x, rng.choice((-2, 1))), rng.random() < 0.3, bal_v1(x)) for o, x in zip(o1, x1)]
+
+        scr = bal_script
+        xa, xb = rng.randint(300, 349), rng.randint(400, 449)
+        A = scr(bal_v0, old1[0][1][0], [rng.choice((1, 2))], xa)
+        B = scr(bal_v1, old0[-2][1][0], [rng.choice((1, 2))], xb)
+        C = scr(bal_v0, old1[0][1][0], [rng.choice((-1, -2)) for _ in range(rng.randint(0, 2))] + [1], 500)
+        D = scr(bal_v1, xb, [rng.choice((1, 2)) for _ in range(rng.randint(0, 2))] + [rng.choice((-1, 4))], 600)
+        c = {"kind": "quantis", "tag": "quantis-balance", "e0": ens(i0, m, sc), "e1": ens((0, 1, 3), m, (True, False)),
+             "old0": old0, "old1": old1, "scripts": [A, B, C, D], "aa": False, "xi": Fraction(0),
+             "beta0": rng.choice((Fraction(1), Fraction(1, 2), Fraction(2))), "beta1": rng.choice((Fraction(1), Fraction(1, 2), Fraction(2)))}
+        out.append((c, scr))
+    return out
+
+
+def balance_block(ctx, W, have_model):
+    lines, codes = [], []
+    for c, scr in balance_cases(ctx):
+        fs = {}
+        r1 = W.run(c, fs=fs, dirk=1)
+        br = check_case(ctx, c, r1)
+        ctx.count(1, branch=f"balance:first:{br}", gen=c["tag"])
+        p1 = Fraction(r1["p"]) if ("err" not in r1 and r1.get("p") is not None) else Fraction(1)
+        lines.append(case_line(c, p1))
+        codes.append(code_line(r1))
+        ctx.distinct(lines[-1])
+        if "err" in r1 or not r1["accept"]:
+            continue
+        c2 = balance_second(c, r1, ctx.rng.choice)
+        r2 = W.run(c2, fs=fs, old_paths=tuple(r1["objs"]), dirk=2)
+        br2 = check_case(ctx, c2, r2)
+        ctx.count(1, branch=f"balance:back:{br2}", gen=c2["tag"])
+        p2 = Fraction(r2["p"]) if ("err" not in r2 and r2.get("p") is not None) else Fraction(1)
+        lines.append(case_line(c2, p2))
+        codes.append(code_line(r2))
+        if "err" in r2 or r2.get("ea") is None:
+            ctx.fail("C11:quantis-not-reversible", f"the swap back of an accepted QuanTIS pair did not reach the energy rule: "
+                     f"{r2.get('status', r2.get('err'))}", strip(c))
+            continue
+        if r2["ea"] != -r1["ea"]:
+            ctx.fail("C11:quantis-not-reversible", f"exponent of the swap {r1['ea']!r}, of the swap back {r2['ea']!r} (must be its negative: "
+                     f"detailed balance of min(1, exp(β0ΔV0 − β1ΔV1)))", strip(c))
+    if have_model and lines:
+        out = ctx.driver(lines)
+        for ln, cl, ml in zip(lines, codes, out):
+            if cl != ml:
+                ctx.disagree({"line": ln}, cl, ml)
+    if lines:
+        ctx.sample({"case": lines[-1], "code": codes[-1]})
+
+
 # --------------------------------------------------------------------------- the run
+_TABLES = [None]
+
+
 def check_case(ctx, c, r):
+    """property predicates on the real output `r` of case `c` (incl. the status tables / draw position); returns branch label"""
+    br = _check_case(ctx, c, r)
+    try:
+        check_tables(ctx, _TABLES[0], c, r)
+    except Exception as e:  # noqa: BLE001
+        ctx.fail("C11:output-not-interpretable", f"status table predicate could not read the result: {e!r}", strip(c))
+    return br
+
+
+def _check_case(ctx, c, r):
     """property predicates on the real output `r` of case `c`; returns branch label"""
     rep = {k: c[k] for k in c if k != "tag"}
     # C09 clause for the zero swaps: whatever the outcome, the old paths (frame objects, order, config, vel_rev,
@@ -1066,6 +1352,17 @@ def check_case(ctx, c, r):
                 and nondry and not valid_minus(e0, r["path0"]):
             ctx.hit("quirk:maxlen0>maxlen1 accepts a [0-] path that never crossed (unreachable from a config file)")
         return "ACC"
+    # QuanTIS (Infretis.C11.quantis_swap_members): an accepted swap yields members of both ensembles, whatever the old paths
+    # were, for MD programs that do not end before the length limit (both limits are read from the [0-] settings)
+    nondry = c.get("engine") == "vel" or all(len(s_[1]) + 2 >= e0["maxlen"] for s_ in c["scripts"][2:4])
+    if nondry and ordered(e0) and e0["i"][2] == e1["i"][0] and e0["maxlen"] <= e1["maxlen"]:
+        if not valid_minus(e0, r["path0"]):
+            ctx.fail("C11:new-minus-path-not-member", f"QuanTIS accepted new [0-] path {[f[0] for f in r['path0']]} "
+                     f"for interfaces {e0['i']} maxlen {e0['maxlen']}", rep)
+        if not valid_plus(e1, r["path1"]):
+            ctx.fail("C11:new-plus-path-not-member", f"QuanTIS accepted new [0+] path {[f[0] for f in r['path1']]} "
+                     f"for interfaces {e1['i']} maxlen {e1['maxlen']}", rep)
+        return "ACC-members"
     return "ACC"
 
 
@@ -1311,6 +1608,30 @@ def strip(c):
     return {k: v for k, v in c.items() if k != "tag"}
 
 
+def select_block(ctx, W, cases, results, label):
+    """tie tightness: a sample of the cases again, this time through the REAL `select_shoot(picked)` (engine look-up in
+    tis.ENGINES via eng_idx, the set-up loop, the routing len(picked) == 2 → quantis / retis by tis_set["quantis"]),
+    with picked in either key order: the outcome must be the outcome of the direct call (which is what is compared
+    with the Lean model)"""
+    n = 0
+    step = max(1, len(cases) // (400 if ctx.quick else 4000))
+    for k in range(0, len(cases), step):
+        c, r = cases[k], results[k]
+        if c.get("engine") == "vel" or c["kind"] not in ("retis", "quantis"):
+            continue
+        cs = dict(c, via_select=True, picked_order=n % 2)
+        rs = W.run(cs)
+        n += 1
+        a, b = code_line(rs), code_line(r)
+        ctx.count(1, branch=f"select_shoot:{label}:{rs.get('status', rs.get('err'))}")
+        if a != b:
+            ctx.fail("C11:select-shoot-routes-differently",
+                     f"through select_shoot (picked keys in order {list((0, -1) if cs['picked_order'] else (-1, 0))}) the zero swap gives "
+                     f"[{a[:160]}], called directly [{b[:160]}]", strip(cs))
+        if rs.get("mutated"):
+            ctx.fail("C11:old-path-mutated-by-zero-swap", f"via select_shoot: {rs['mutated']}", strip(cs))
+
+
 def run(ctx):
     W = World()
     try:
@@ -1331,6 +1652,9 @@ def _run(ctx, W):
                 "integer leap-frog double well found by seeded search, swapped twice. Non-trivial = the move reached a "
                 "propagate call; distinct by the full case.")
     have_model = ctx._driver_ok
+    _TABLES[0] = spec_tables(ctx) if have_model else None
+    if _TABLES[0] is None:
+        ctx.hit("note: status-table predicates run without the Lean spec tables (driver unavailable): draw positions only")
     # ------------------------------------------------------------------ retis
     cases = retis_cases(ctx)
     results = []
@@ -1356,6 +1680,7 @@ def _run(ctx, W):
             ctx.disagree(strip(c), cl, out[k])
         if k % 15013 == 7:
             ctx.sample({"case": case_line(c), "code": cl})
+    select_block(ctx, W, cases, results, "retis")
     # ------------------------------------------------------------------ high-acceptance swap with an interface cap
     hc = has_cases(ctx, W)
     if have_model:
@@ -1400,6 +1725,14 @@ def _run(ctx, W):
         p = ra["p"]
         # the value handed to min(1, ·) is exp of the energy expression of the property
         sp1, sp0 = c["old0"][-2], c["old1"][0]
+        four = (sp1[3], c["scripts"][0][0], c["scripts"][1][0], sp0[3])
+        if any(v is None for v in four):
+            # the energy rule was evaluated although one of the four energies it is defined by does not exist
+            # (V0(r0), V0(r1) = engine 0's energy of frame 0 of its one-step path, V1(r0) likewise, V1(r1)): whatever
+            # number was used, it is not the prescribed one (the unchanged code raises TypeError here)
+            ctx.fail("C11:quantis-wrong-exponent", f"np.exp called with {ra['ea']} although the energies (V0r0, V0r1, V1r0, V1r1) = {four} "
+                     f"are not all present", strip(ca))
+            continue
         want = (sp1[3] - c["scripts"][0][0]) * float(c["beta0"]) - (c["scripts"][1][0] - sp0[3]) * float(c["beta1"])
         if ra["ea"] != want or not math.isclose(p, math.exp(want), rel_tol=1e-14):
             ctx.fail("C11:quantis-wrong-exponent", f"np.exp called with {ra['ea']} → {p}; β0·ΔV0 − β1·ΔV1 = {want}", strip(ca))
@@ -1441,8 +1774,25 @@ def _run(ctx, W):
                 ctx.fail("C11:quantis-junction", "junction frames are not the shooting points", strip(c))
         if k % 4001 == 5:
             ctx.sample({"case": lines[k] if have_model else "-", "code": cl})
+    select_block(ctx, W, qcases, qres, "quantis")
+    # the paste_paths / reverse calls of the real move against C15's path algebra (PathAlg.paste / Path.reverse)
+    pl = []
+    for c, r in zip(qcases, qres):
+        t = paste_lines(ctx, c, r)
+        if t is not None:
+            pl.append((c, t))
+            ctx.count(1, branch=f"quantis:paste-calls:{t[2]}")
+    if have_model and pl:
+        out = ctx.driver([t[0] for _, t in pl])
+        for (c, (ln, real, ncalls)), ml in zip(pl, out):
+            got = ml if ncalls == 2 else ml.split(" | ")[0]
+            if got != real:
+                ctx.disagree({"line": ln}, real, ml)
+        ctx.sample({"case": pl[0][1][0], "code": pl[0][1][1]})
+    # ------------------------------------------------------------------ quantis: detailed balance (swap and swap back)
+    balance_block(ctx, W, have_model)
     # ------------------------------------------------------------------ reversible engine, swap twice
-    dcases = det_cases(ctx)
+    dcases = det_cases(ctx) + det_cases(ctx, "min3") + det_cases(ctx, "tight") + det_cases(ctx, "long")
     dlines, dcode = [], []
     for c in dcases:
         fs = {}
@@ -1480,6 +1830,9 @@ def _run(ctx, W):
     if dcases:
         ctx.sample({"case": dlines[0], "code": dcode[0]})
     ctx.extra["reversible_pairs"] = len(dcases)
+    # ------------------------------------------------------------------ real TurtleMD engines, 2 particles (run-time part)
+    from props import c11_turtle
+    c11_turtle.run(ctx)
     ctx.exhaustive = False
     ctx.assumptions += [
         "order values, interfaces, energies are small integers (exact as floats); -inf is sent to the model as an integer below all values",
@@ -1505,6 +1858,18 @@ def _run(ctx, W):
 def replay(ctx, obj):
     import ast
     r = obj.get("replay", {})
+    if "turtle" in r:
+        # the real-engine block is regenerated from a fixed seed (its inputs are trajectories the engines produce)
+        import random
+        from props import c11_turtle
+        before = len(ctx.fails)
+        saved = ctx.rng
+        ctx.rng = random.Random(0)
+        try:
+            c11_turtle.run(ctx)
+        finally:
+            ctx.rng = saved
+        return 1 if len(ctx.fails) > before else 0
     W = World()
     try:
         c = _revive(r)
@@ -1512,8 +1877,26 @@ def replay(ctx, obj):
         res = W.run(c, fs=fs, dirk=1)
         print("code:", code_line(res))
         before = len(ctx.fails)
+        if getattr(ctx, "_driver_ok", False):
+            try:
+                _TABLES[0] = spec_tables(ctx)
+            except Exception:  # noqa: BLE001
+                _TABLES[0] = None
         check_case(ctx, c, res)
         sig = obj.get("signature", "")
+        if "paste" in sig:
+            paste_lines(ctx, c, res)
+        if sig.startswith("C11:select-shoot"):
+            direct = W.run({k: v for k, v in c.items() if k not in ("via_select", "picked_order")})
+            print("direct:", code_line(direct))
+            if code_line(direct) != code_line(res):
+                return 1
+        if sig.startswith("C11:quantis-not-reversible") and "err" not in res and res["accept"]:
+            c2 = balance_second(c, res, lambda opts: opts[0])
+            r2 = W.run(c2, fs=fs, old_paths=tuple(res["objs"]), dirk=2)
+            print("back:", code_line(r2))
+            if "err" in r2 or r2.get("ea") is None or r2["ea"] != -res["ea"]:
+                return 1
         if sig.startswith("C11:high-acc"):
             check_high_acc(ctx, W, c, res)
         if sig.startswith("C11:second-move"):
@@ -1534,6 +1917,8 @@ def replay(ctx, obj):
                 pa = min(1.0, ra["p"])
                 if c.get("aa"):
                     sp1, sp0 = c["old0"][-2], c["old1"][0]
+                    if any(v is None for v in (sp1[3], c["scripts"][0][0], c["scripts"][1][0], sp0[3])):
+                        return 1
                     want = (sp1[3] - c["scripts"][0][0]) * float(c["beta0"]) - (c["scripts"][1][0] - sp0[3]) * float(c["beta1"])
                     return 1 if (ra["ea"] != want or not math.isclose(ra["p"], math.exp(want), rel_tol=1e-14)) else 0
                 if res["accept"] != (ra["accept"] and x <= pa) or (res["status"] == "QEA") != (not x <= pa):
